@@ -5,8 +5,8 @@
    d = (stored configuration image, user_cmd, per-connection parser state) with TCP segment seg; the result
    carries the HTTP status codes sent, whether the configuration was saved, restarts, and the list of
    memory faults (1 read outside the segment, 2 read of an uninitialised tempPassword cell, 3 write outside
-   the destination buffer/field, 4 segment length wrapped).  `FIXED` is the code with the four repairs of
-   docs/fixes/C14_*.diff applied, `UNFIXED` the code of the unchanged tree.  `sg` = signedness of plain char. *)
+   the destination buffer/field, 4 segment length wrapped).  `FIXED` is the code with the five repairs of
+   docs/fixes/C14_*.diff applied (`FIXED4`: the first four, i.e. the tree after commits 2ca076d..820ad9a), `UNFIXED` the code of the unchanged tree.  `sg` = signedness of plain char. *)
 From Coq Require Import List ZArith.
 Import ListNotations.
 From V Require Import Base.Bytes Gen.C14Vars C14.Model C14.Proofs.
@@ -80,6 +80,18 @@ Theorem C14_segmentation_independent_except_known : forall s1 s2,
   single_segment s1 -> single_segment s2 -> concat s1 = concat s2 -> final_cfg s1 = final_cfg s2.
 Proof. exact C14_segmentation_independent_except_known_thm. Qed.
 Print Assumptions C14_segmentation_independent_except_known.
+
+(* Fifth defect (found with the two-step cases): Password full (33) and no room for the overflow part behind a
+   255-character name; a later form with a shorter name and an empty password leaves the rest of the old name behind
+   the new terminator, where it is read as the overflow part: the effective password changes although it was
+   submitted empty.  docs/fixes/C14_stale_name_tail.diff writes an empty overflow part. *)
+Theorem C14_stale_tail_refuted :
+  slice (two_forms FIXED4) O_Email 6 = [98; 111; 98; 0; 85; 85] /\
+  strnlen (slice (two_forms FIXED4) O_LocationPwd PWD_MAX) PWD_MAX = PWD_MAX /\
+  slice (two_forms FIXED) O_Email 6 = [98; 111; 98; 0; 0; 85] /\
+  strnlen (slice (two_forms FIXED) O_LocationPwd PWD_MAX) PWD_MAX = PWD_MAX.
+Proof. exact C14_stale_tail_refuted_thm. Qed.
+Print Assumptions C14_stale_tail_refuted.
 
 (* the hypothesis of C14_no_fault is satisfiable: the blank device *)
 Example C14_dev_ok_satisfiable : dev_ok {| dcfg := zeros CFG_SIZE; dcmd := None; dpv := pv0 |}.
